@@ -31,6 +31,7 @@ const (
 
 type c03Inv struct {
 	cmd       int
+	owner     int // the command this handler was registered for (the number on the wire may differ from it only if dispatch is wrong)
 	negAuth   bool
 	negEnc    bool
 	streamEnc bool
@@ -61,24 +62,26 @@ func c03Dispatch(res *vlib.Result, dAuth, dEnc, sAuth, sEnc, sInteg security.Sec
 	}
 	var mu sync.Mutex
 	var invs []c03Inv
-	h := func(ctx context.Context, c *server.Conn) error {
-		iv := c03Inv{cmd: c.Command, streamEnc: c.Stream.IsEncrypted()}
-		if c.Negotiation != nil {
-			iv.negAuth, iv.negEnc, iv.sid, iv.resumed = c.Negotiation.Authentication, c.Negotiation.Encryption, c.Negotiation.SessionId, c.Negotiation.SessionResumed
+	mkh := func(owner int) server.HandlerFunc {
+		return func(ctx context.Context, c *server.Conn) error {
+			iv := c03Inv{cmd: c.Command, owner: owner, streamEnc: c.Stream.IsEncrypted()}
+			if c.Negotiation != nil {
+				iv.negAuth, iv.negEnc, iv.sid, iv.resumed = c.Negotiation.Authentication, c.Negotiation.Encryption, c.Negotiation.SessionId, c.Negotiation.SessionResumed
+			}
+			mu.Lock()
+			invs = append(invs, iv)
+			mu.Unlock()
+			m := message.NewMessageForStream(c.Stream)
+			_ = m.PutString(ctx, fmt.Sprintf("RESP-CANARY-%d", owner))
+			if err := m.FinishMessage(ctx); err != nil {
+				return err
+			}
+			c.KeepAlive()
+			return nil
 		}
-		mu.Lock()
-		invs = append(invs, iv)
-		mu.Unlock()
-		m := message.NewMessageForStream(c.Stream)
-		_ = m.PutString(ctx, fmt.Sprintf("RESP-CANARY-%d", c.Command))
-		if err := m.FinishMessage(ctx); err != nil {
-			return err
-		}
-		c.KeepAlive()
-		return nil
 	}
-	srv.Handle(c03CmdLax, h, "READ")
-	srv.Handle(c03CmdStrict, h, "READ")
+	srv.Handle(c03CmdLax, mkh(c03CmdLax), "READ")
+	srv.Handle(c03CmdStrict, mkh(c03CmdStrict), "READ")
 	_ = srv // no Authorizer: every authenticated or anonymous peer is allowed; only the security level gates dispatch
 	cliCache := security.NewSessionCache()
 	mkCli := func() *security.SecurityConfig {
@@ -189,11 +192,15 @@ func c03Dispatch(res *vlib.Result, dAuth, dEnc, sAuth, sEnc, sInteg security.Sec
 		invs = nil
 		mu.Unlock()
 		for _, iv := range list {
-			if iv.cmd != c03CmdStrict {
+			key := func(k string) string { return fmt.Sprintf("C03/dispatch/%s/%s/%s", k, flow, kind) }
+			if iv.cmd != iv.owner {
+				// the policy that was applied is the one of the number on the wire; the handler belongs to another command
+				res.Violate(key("handler-of-another-command-ran"), "%s (%s): command %d was requested (and its policy applied), the handler registered for command %d ran", id, stage, iv.cmd, iv.owner)
+			}
+			if iv.owner != c03CmdStrict {
 				continue
 			}
 			res.Nontrivial++
-			key := func(k string) string { return fmt.Sprintf("C03/dispatch/%s/%s/%s", k, flow, kind) }
 			if sAuth == security.SecurityRequired && !truthAuth[iv.sid] {
 				res.Violate(key("auth-required-handler-ran-unauthenticated"), "%s (%s): the handler of a command whose policy marks authentication REQUIRED ran on a connection whose session %q never saw an authentication exchange (reports Authentication=%v)", id, stage, iv.sid, iv.negAuth)
 			}
@@ -215,6 +222,14 @@ func c03Dispatch(res *vlib.Result, dAuth, dEnc, sAuth, sEnc, sInteg security.Sec
 	case "keepalive":
 		_, _, w := conn([]int{c03CmdLax, c03CmdStrict}, "")
 		judge(w, "follow-on command on a kept-alive connection")
+	case "fresh-strict-high":
+		// a number that equals the strict command only in its low 32 bits is NOT the strict command: its policy is
+		// the default one, and no handler is registered for it
+		_, _, w := conn([]int{c03CmdStrict + 1<<32}, "")
+		judge(w, "fresh handshake naming strict + 2^32")
+	case "keepalive-high":
+		_, _, w := conn([]int{c03CmdLax, c03CmdStrict + 1<<32}, "")
+		judge(w, "follow-on command strict + 2^32 on a kept-alive connection")
 	case "resume":
 		sid, ok, _ := conn([]int{c03CmdLax}, "")
 		judge(nil, "setup")
@@ -232,7 +247,7 @@ func c03Dispatch(res *vlib.Result, dAuth, dEnc, sAuth, sEnc, sInteg security.Sec
 
 func c03DispatchCases(tier string, yield func(vlib.Case)) {
 	for _, kind := range []string{"claim", "claim-nocrypto", "anon", "plain"} {
-		for _, flow := range []string{"fresh-strict", "keepalive", "resume"} {
+		for _, flow := range []string{"fresh-strict", "keepalive", "resume", "fresh-strict-high", "keepalive-high"} {
 			kind, flow := kind, flow
 			yield(vlib.Case{ID: fmt.Sprintf("dispatch/%s/%s", kind, flow), Run: func() *vlib.Result {
 				res := &vlib.Result{}
